@@ -1,5 +1,6 @@
 import RV.Driver.C01
 import RV.Driver.C03
+import RV.Driver.C10
 open RV.Driver
 
 def dispatch (prop op : String) (args : List String) (impl : String) : Verdict :=
@@ -9,6 +10,7 @@ def dispatch (prop op : String) (args : List String) (impl : String) : Verdict :
   | "C03" => c03 op args impl
   | "C04" => c04 op args impl
   | "C11" => c11 op args impl
+  | "C10" => c10 op args impl
   | _ => bad s!"prop:{prop}"
 
 /-- a line is `id \t prop \t op \t arg… \t => \t impl` -/
@@ -29,7 +31,7 @@ def handleLine (line : String) : String :=
 partial def loop (h : IO.FS.Stream) (out : IO.FS.Stream) : IO Unit := do
   let line ← h.getLine
   if line.isEmpty then return ()
-  let l := (line.dropRightWhile (fun c => c == '\n' || c == '\r'))
+  let l := String.ofList (line.toList.reverse.dropWhile (fun c => c == '\n' || c == '\r')).reverse
   if !l.isEmpty then out.putStrLn (handleLine l)
   loop h out
 
